@@ -54,6 +54,8 @@ var pool = []conf{
 	{"relevantstatus-foo", hdr + "SecAuditLogRelevantStatus foo\nSecRule ARGS \"@streq foo\" \"id:1,phase:1,deny,status:403\"\n", ""},
 	{"dataset-d-a1", hdr + "SecDataset d `\na1\n`\nSecRule ARGS \"@pmFromDataset d\" \"id:1,phase:1,deny,status:403\"\n", ""},
 	{"dataset-d-b2", hdr + "SecDataset d `\nb2\n`\nSecRule ARGS \"@pmFromDataset d\" \"id:1,phase:1,deny,status:403\"\n", ""},
+	// the same phrase list as data set d holds in "dataset-d-a1": the two operators share the compiled automaton
+	{"pm-a1", hdr + "SecRule ARGS \"@pm a1\" \"id:1,phase:1,deny,status:403\"\n", ""},
 	{"pm-d", hdr + "SecRule ARGS \"@pm d\" \"id:1,phase:1,deny,status:403\"\n", ""},
 	{"file-rootA", hdr + "SecRule ARGS \"@pmFromFile list.txt\" \"id:1,phase:1,deny,status:403\"\n", "A"},
 	{"file-rootB", hdr + "SecRule ARGS \"@pmFromFile list.txt\" \"id:1,phase:1,deny,status:403\"\n", "B"},
